@@ -83,7 +83,7 @@ CLAIMS = {
     "C13": (
         "other",
         "def-use discipline rules over MIR, sibling comparison of loop bodies, exhaustive abstract interpretation of the scanning behaviour over (offset label, byte class)",
-        "The numeric value of the SWAR kernel and of the accumulation loops is value-level and not decided. Decided: every overflowing_* flag reaches the one flag gating the returned Option and no other arithmetic touches the value; the five accumulation steps agree (x10, +/- (byte - '0')); the simple scanners' behaviour (digit class, +1 per digit, a lone minus is not passed over) equals the specification exactly for entry offsets 0 and 1; the fast/cold plumbing (cold tail calls, all-matched constants 8/7, continuation at offset+8, checked conversions, sign counted only if a digit followed). R1b: None is returned exactly on the paths where an overflowing_* step reported overflow or None came in, decided as a typestate independent of how the flag is stored. The SWAR kernel's bit-parallel digit classification is value-level and assumed.",
+        "The numeric value of the SWAR kernel and of the accumulation loops is value-level and not decided. Decided: every overflowing_* flag reaches the one flag gating the returned Option and no other arithmetic touches the value; the five accumulation steps agree (x10, +/- (byte - '0')); the simple scanners' behaviour (digit class, +1 per digit, a lone minus is not passed over) equals the specification exactly for entry offsets 0 and 1; the fast/cold plumbing (cold tail calls, all-matched constants 8/7, continuation at offset+8, checked conversions, sign counted only if a digit followed). R1b: None is returned exactly on the paths where an overflowing_* step reported overflow or None came in, decided as a typestate independent of how the flag is stored. R5: the SWAR kernel's digit test is interpreted lane by lane (tables over all 256 byte values per lane, additions proved carry-free between lanes): a lane is zero exactly for '0'..='9'; only the multiply-and-shift reduction is assumed.",
         "DESIGN.md §4 C13",
     ),
     "C14": (
